@@ -70,7 +70,7 @@ from ._state_token import (
     _deserialize_state_bytes,
     _mint_call_token,
     _mint_cursor_token,
-    _open_call_token,
+    _open_call_token_dated,
     _open_cursor_token,
     _resolve_state_cls,
     _ResolvedCall,
@@ -305,6 +305,7 @@ def _run_stream_init_sync(
             # serialized or sealed.  Continuations echo the token back and the
             # server resolves it from cache; see ``_state_token`` for why that
             # lookup is safe.
+            call_created_at = int(time.time())
             call_token, call_id, call_state_bytes = _mint_call_token(
                 result.call_state,
                 result.output_schema,
@@ -312,6 +313,7 @@ def _run_stream_init_sync(
                 app._token_key,
                 auth,
                 stream_id,
+                now=call_created_at,
             )
             # Warm the cache with the objects we already hold, so this stream's
             # first continuation does not have to open the token it was just
@@ -319,8 +321,8 @@ def _run_stream_init_sync(
             app._call_state_cache.put(
                 call_id,
                 auth,
-                _ResolvedCall(result.call_state, result.output_schema, result.input_schema, stream_id),
-                time.time(),
+                _ResolvedCall(result.call_state, result.output_schema, result.input_schema, stream_id, call_created_at),
+                float(call_created_at),
             )
 
             if result.input_schema == _EMPTY_SCHEMA:
@@ -1186,7 +1188,12 @@ def _unpack_and_recover_state(
     resolved = app._call_state_cache.get(call_id, auth, now)
     if resolved is None:
         resolved = _resolve_call_from_token(app, call_token, call_id, state_info, auth)
-        app._call_state_cache.put(call_id, auth, resolved, now)
+        # Count the entry's lifetime from the call token's own creation time:
+        # storing it under ``now`` would let a worker that first saw the
+        # stream late keep serving it after the token has expired, which a
+        # worker without the entry refuses.  With expiry disabled there is
+        # no token lifetime to follow.
+        app._call_state_cache.put(call_id, auth, resolved, float(resolved.created_at) if app._token_ttl > 0 else now)
 
     if resolved.stream_id:
         _current_stream_id.set(resolved.stream_id)
@@ -1259,7 +1266,8 @@ def _resolve_call_from_token(
         input_schema_bytes,
         token_call_id,
         stream_id,
-    ) = _open_call_token(call_token, app._token_key, _compute_call_aad(auth), app._token_ttl)
+        created_at,
+    ) = _open_call_token_dated(call_token, app._token_key, _compute_call_aad(auth), app._token_ttl)
     # Constant-time compare: the ids are both server-minted and already
     # authenticated, so this is belt-and-braces against a client pairing two
     # of its own tokens from different streams.
@@ -1301,4 +1309,4 @@ def _resolve_call_from_token(
                 status_code=HTTPStatus.BAD_REQUEST,
             ) from exc
 
-    return _ResolvedCall(call_state, output_schema, input_schema, stream_id)
+    return _ResolvedCall(call_state, output_schema, input_schema, stream_id, created_at)
